@@ -137,6 +137,13 @@ def run_case(seed, i, tier):
         srcs = gen_long(rng)
         base_opts = ["--color", "never", "--tz-offset", "+00:00"]
         expected = merge.model_stdout(srcs)
+    elif i % 16 == 4:
+        # the stamp inside the line (prefix of 0..400 bytes, JSON-lines): found by the wide patterns, whose search slice of
+        # up to 1024 / 2056 bytes spans several small blocks
+        srcs = merge.gen_sources(rng, rng.choice((1, 1, 2)), 512, max_msgs=rng.choice((3, 8, 20)), containers=("plain", "plain", "gz", "lz4"),
+                                 allow_degenerate=False, tie_heavy=True, first_line_max=None, safe_sizes=(65536,), notations=(4, 5))
+        base_opts = ["--color", "never", "--tz-offset", "+00:00"]
+        expected = merge.model_stdout(srcs)
     else:
         srcs = gen_case(rng)
         base_opts = ["--color", "never", "--tz-offset", "+00:00"]
@@ -175,6 +182,8 @@ def run_case(seed, i, tier):
         cr.probes["long_line_family"] += 1
     if aligned:
         cr.probes["aligned_multiline_first_message_family"] += 1
+    if i % 16 == 4:
+        cr.probes["stamp_inside_the_line_family"] += 1
     for bsz in sizes:
         if wild:
             # F-C12a steering for this family: the first line (<= 70 bytes) must end inside block zero, and a block zero
@@ -184,7 +193,7 @@ def run_case(seed, i, tier):
         elif not all(merge.blockzero_safe(s.plain, s.msgs, bsz) for s in srcs if s.plain is not None):
             cr.probes["size_steered_away_from_F-C12a"] += 1
             continue
-        opts = base_opts + ["--blocksz", str(bsz) if rng.random() < 0.7 else hex(bsz)]
+        opts = base_opts + ["--blocksz", rng.choice((str, str, str, str, str, hex, hex, oct, bin))(bsz)]
         _, res = mergecheck.run_once(srcs, opts, plan)
         tr = res.trace
         cr.runs += 1
